@@ -100,6 +100,9 @@ def apply_op(opname, arrs):
         return arrs
     if opname == "lin":
         return {k: 1.5 * v for k, v in arrs.items()}
+    if opname == "adapter":
+        # MultiField -> Field (another output type: different HDF5 layout, different statistics container)
+        return {"": 2.0 * arrs["a"]} if "a" in arrs else {k: 1.5 * v for k, v in arrs.items()}
     return {k: np.exp(0.3 * v) for k, v in arrs.items()}
 
 
@@ -110,6 +113,10 @@ def nifty_op(opname, ftype, doms):
         return None
     if opname == "lin":
         return ift.ScalingOperator(D, 1.5)
+    if opname == "adapter":
+        if ftype != "multi":
+            return ift.ScalingOperator(D, 1.5)
+        return ift.ScalingOperator(doms["field"], 2.0) @ ift.FieldAdapter(doms["field"], "a")
     return ift.ScalingOperator(D, 0.3).exp()
 
 
@@ -577,7 +584,7 @@ def run_history(phases, collect=None):
 def strategies():
     from hypothesis import strategies as st
     base = st.sampled_from(BASES)
-    opn = st.sampled_from([None, "lin", "nonlin"])
+    opn = st.sampled_from([None, "lin", "nonlin", "adapter"])
     save = st.fixed_dictionaries({
         "op": st.just("save"), "base": base, "kind": st.sampled_from(["plain", "residual"]),
         "ftype": st.sampled_from(["field", "multi"]),
